@@ -174,6 +174,31 @@ class _Subst(ast.NodeTransformer):
         return n
 
 
+def _dead_after(caller, call, name):
+    """Conservative: the caller does not read `name` after the call - no load
+    on a later line, and the call is not inside a loop (where earlier lines run
+    again)."""
+    parents = {}
+    for n in ast.walk(caller):
+        for c in ast.iter_child_nodes(n):
+            parents[c] = n
+    p = call
+    while p in parents:
+        p = parents[p]
+        if isinstance(p, (ast.For, ast.While, ast.AsyncFor)):
+            return False
+    end = getattr(call, "end_lineno", call.lineno)
+    for n in ast.walk(caller):
+        if isinstance(n, ast.Name) and n.id == name and \
+                isinstance(n.ctx, ast.Load) and n.lineno > end:
+            return False
+        if isinstance(n, (ast.FunctionDef, ast.Lambda)) and n is not caller \
+                and any(isinstance(x, ast.Name) and x.id == name
+                        for x in ast.walk(n)):
+            return False
+    return True
+
+
 def _assigns_attr(fn, attr):
     for n in ast.walk(fn):
         if isinstance(n, ast.Attribute) and n.attr == attr and \
@@ -335,23 +360,28 @@ class Expander(object):
         stored = {n.id for st in fn.body for n in ast.walk(st)
                   if isinstance(n, ast.Name) and
                   isinstance(n.ctx, (ast.Store, ast.Del))}
-        caller_stores = None
         subst = {}
+        keep = set()
         for p in order:
             a = actual[p]
             if p in stored:
+                # rebound by the helper: may keep the caller's name when it is
+                # passed that very variable and the caller never reads it again
+                if isinstance(a, ast.Name) and a.id == p and \
+                        _dead_after(caller, call, p):
+                    keep.add(p)
                 continue
             if isinstance(a, ast.Constant):
                 subst[p] = a
             elif isinstance(a, ast.Name):
-                # the caller's variable must not be one the helper assigns
-                if mp.get(a.id, a.id) == a.id and a.id not in stored:
-                    subst[p] = a
+                # helper locals that clash with caller names are renamed, so
+                # the helper cannot assign the caller's variable
+                subst[p] = a
             elif isinstance(a, ast.Attribute) and \
                     isinstance(a.value, ast.Name) and a.value.id == "self" \
                     and not _assigns_attr(fn, a.attr):
                 subst[p] = a
-        for p in subst:
+        for p in list(subst) + list(keep):
             mp.pop(p, None)
         ren = _Ren(mp)
         body = [ren.visit(s) for s in body]
